@@ -175,16 +175,84 @@ def fault_vectors(ctx, wd):
     return runs
 
 
+def scanner_layer(ctx):
+    """white-box: scanTokenAt on every position of every short buffer, recorded by a test file dropped into the SCRATCH copy of fc/,
+    validated by TLC against spec/FoLex.tla. Returns (lines, bad indices, differ indices) or None when the driver does not compile."""
+    import shutil
+    import subprocess
+    sd = ctx.spec_dir()
+    n = 4 if ctx.tier == "thorough" else 3
+    from vlib import slicecheck as sc
+    sc.write_cfg(ctx, "FoLexMC_run.cfg", "CONSTANTS\n  N = %d\n  Deviations <- NoDev\nINIT Init\nNEXT Next\n" % (n + 1 if ctx.tier == "thorough" else n + 1))
+    ctx.tlc("FoLexMC", "FoLexMC_run.cfg", workers=1, timeout=3000, heap_gb=8)
+    r = ctx.tlc("FoLexMC", "FoLexMC_dev.cfg", workers=1, timeout=600, allow_fail=True)
+    if "is false" not in r["out"]:
+        raise Infra("self-test: the scanner model without the end-of-buffer guard is not refuted (vacuous?)")
+    fcdir = os.path.join(ctx.repo, "fc")
+    shutil.copy(os.path.join(core.VERIF, "harness", "fcwhite", "zz_verif_scan_test.go"), os.path.join(fcdir, "zz_verif_scan_test.go"))
+    rc, so, se = core.sh(["go", "test", "-c", "-tags", "verif", "-vet=off", "-o", os.path.join(ctx.mkdir("bin"), "scan.test"), "."], cwd=fcdir, timeout=900)
+    os.remove(os.path.join(fcdir, "zz_verif_scan_test.go"))
+    if rc != 0:
+        ctx.note("white-box scanner layer skipped: the driver does not compile against this tree (%s)" % (so + se).strip().splitlines()[-1][:200])
+        return None
+    alpha = [" ", "\t", "/", "*", "\n", "a", "1", "\"", "\\", "`", "{", "}", "$"]
+    bufs = [list(t) for k in range(0, n + 1) for t in itertools.product(alpha, repeat=k)]
+    more = ["=", "(", ")", "[", "]", ":", ",", ".", ";", "|", ">", "<", "-", "&", "+", "_", "#", "x", "9"]
+    for _ in range(4000 if ctx.tier == "thorough" else 800):
+        bufs.append([ctx.rng.choice(alpha + more) for _ in range(ctx.rng.randint(n + 1, 10))])
+    inp = os.path.join(sd, "lex_bufs.ndjson")
+    outp = os.path.join(sd, "lex_trace.ndjson")
+    core.write_ndjson(inp, bufs)
+    if os.path.exists(outp):
+        os.remove(outp)
+    start = 0
+    for attempt in range(50):
+        env = dict(core.GOENV, VERIF_SCAN_IN=inp, VERIF_SCAN_OUT=outp, VERIF_SCAN_FROM=str(start))
+        rc, so, se = core.sh([os.path.join(ctx.path("bin"), "scan.test"), "-test.run", "TestVerifScan"], env=env, timeout=1800)
+        if rc == 0:
+            break
+        lines = core.read_ndjson(outp)
+        if rc == 3 and lines and lines[-1].get("hang"):
+            start = lines[-1]["i"]          # continue after the buffer that hung
+            continue
+        raise Infra("scanner driver failed (exit %d): %s" % (rc, (so + se)[-800:]))
+    lines = core.read_ndjson(outp)
+    core.write_ndjson(outp, lines)
+    r = ctx.tlc("FoLexTrace", "FoLexTrace.cfg", workers=1, timeout=3000, heap_gb=8)
+    nl, bad = sc.parse_trace_end(r["out"])
+    _, differ = sc.parse_trace_end(r["out"], "DIFFER-END")
+    if nl != len(lines):
+        raise Infra("trace length mismatch")
+    return lines, bad, differ
+
+
 def run(ctx):
     ctx.rule = ("(a) every fault vector over {ok, .foi, syntax error, missing, directory, unwritable destination, infinite type} for 1-2 "
                 "arguments (3 arguments sampled in quick, all in thorough); (b) mutants of corpus programs and of 2 samples: truncation at "
                 "every offset, deletion / duplication of every token, swaps, indentation damage of every line, inserted delimiters / "
                 "keywords / stray and non-UTF-8 bytes, missing final newline, CRLF; (c) systematic self-application shapes, ill-typed and "
                 "extreme definitions (deep nesting, long chains, many definitions); (d) all buffers <= 3 (quick) / 4 (thorough) over the "
-                "13 scanner-critical characters plus random longer ones, alone and after a valid prefix. One run of the real binary each, "
+                "13 scanner-critical characters plus random longer ones, alone and after a valid prefix; (e) white-box: scanTokenAt at every "
+                "position of every buffer <= 3 / 4 over those characters plus random longer ones, validated against FoLex.tla. One run of the real binary each, "
                 "time-out 20 s. distinct = distinct (arguments, contents); non-trivial = input differs from an unmodified program")
     r = ctx.tlc("FoDriverMC", "FoDriver_mc.cfg", workers=2, timeout=1800)
     fc = ctx.build("fc")
+    lex = scanner_layer(ctx)
+    if lex is not None:
+        llines, lbad, ldiffer = lex
+        ctx.extra["scanner_calls_validated"] = len(llines)
+        ctx.extra["scanner_model_disagreements"] = len(ldiffer)
+        if ldiffer:
+            t = llines[ldiffer[0] - 1]
+            ctx.extra["scanner_model_first_disagreement"] = {k: t[k] for k in ("buf", "pos", "tt", "begin", "len", "panic")}
+        for i, t in enumerate(llines):
+            if i % 7 == 0:
+                ctx.case(["scan", t["buf"], t["pos"]], nontrivial=True)
+        for b in lbad[:10]:
+            t = llines[b - 1]
+            ctx.violation("scanTokenAt(%r, %d): %s" % ("".join(t["buf"]), t["pos"], "does not return (hang)" if t["hang"] else
+                          "token [%s begin=%d len=%d] leaves the buffer or makes no progress" % (t["tt"], t["begin"], t["len"])),
+                          {"tag": "scanner", "source": "".join(t["buf"]), "recorded": t})
     wd = ctx.mkdir("c16")
     repo = ctx.repo
     runs = fault_vectors(ctx, wd)
